@@ -1650,6 +1650,46 @@ func ruleTrimWindow(c *Ctx, rule string) {
 		}
 		return nil, false
 	}
+	// (1b) the candidate that is committed into start also begins at q.Start()
+	for i, pred := range S.Block().Preds {
+		if !loop.body[pred] {
+			continue
+		}
+		if j, ok := S.Edges[i].(*ssa.Phi); ok {
+			for _, e := range j.Edges {
+				if e == ssa.Value(S) {
+					continue
+				}
+				// e is the committed candidate: follow it to its header phi
+				cand := e
+				for d := 0; d < 4; d++ {
+					if cp, ok := cand.(*ssa.Phi); ok && cp.Block() != S.Block() {
+						for _, ce := range cp.Edges {
+							if hp, ok := ce.(*ssa.Phi); ok && hp.Block() == S.Block() {
+								cand = hp
+							}
+						}
+						continue
+					}
+					break
+				}
+				if hp, ok := cand.(*ssa.Phi); ok && hp.Block() == S.Block() && hp != S {
+					key1b := "sequtils.Trim/candidate-initialised-from-Start()"
+					var cinit ssa.Value
+					for k, pr := range hp.Block().Preds {
+						if !loop.body[pr] {
+							cinit = hp.Edges[k]
+						}
+					}
+					if cinit != nil && isStartCall(cinit) {
+						c.ok(rule, key1b, hp.Pos(), "the start of the window being accumulated begins at q.Start()")
+					} else {
+						c.bad(rule, key1b, hp.Pos(), "the start of the window being accumulated is not initialised from q.Start(): for a sequence that does not begin at 0, a best window found before the first reset is reported as starting at 0 — outside the sequence, or without its leading bases")
+					}
+				}
+			}
+		}
+	}
 	key2 := "sequtils.Trim/start-committed-with-end"
 	bs, ok1 := commit(S)
 	be, ok2 := commit(E)
@@ -1848,5 +1888,93 @@ func ruleNonNegLen(c *Ctx, rule string, names ...string) {
 		if n == 0 {
 			c.und(rule, "sequtils."+name+"/Make", fn.Pos(), "no Make call found")
 		}
+	}
+}
+
+// ---- intervalcoherent (C02, C05–C07, C16, C20): End() == Start() + Len() for every type ----
+
+// ruleIntervalCoherent: every type that has Start(), End() and Len() methods
+// describes the half-open interval [Start, End) of Len positions. Where the
+// three bodies are straight-line code, their symbolic linear forms (fields
+// and lengths as atoms, same-type helper methods inlined) must satisfy
+// End - Start - Len == 0. A type whose accessors disagree breaks every
+// property stated in terms of positions.
+func ruleIntervalCoherent(c *Ctx, rule string, shorts ...string) {
+	n := 0
+	for _, short := range shorts {
+		sp := c.SPkgs[c.pkg(short).PkgPath]
+		var names []string
+		for name := range sp.Members {
+			names = append(names, name)
+		}
+		sort.Strings(names)
+		for _, name := range names {
+			t, ok := sp.Members[name].(*ssa.Type)
+			if !ok {
+				continue
+			}
+			if _, isI := t.Type().Underlying().(*types.Interface); isI {
+				continue
+			}
+			get := func(m string) *ssa.Function {
+				for _, typ := range []types.Type{t.Type(), types.NewPointer(t.Type())} {
+					ms := c.Prog.MethodSets.MethodSet(typ)
+					for i := 0; i < ms.Len(); i++ {
+						if ms.At(i).Obj().Name() == m {
+							f := c.Prog.MethodValue(ms.At(i))
+							if f != nil && f.Synthetic == "" && f.Pkg == sp {
+								return f
+							}
+						}
+					}
+				}
+				return nil
+			}
+			fs, fe, fl := get("Start"), get("End"), get("Len")
+			if fs == nil || fe == nil || fl == nil {
+				continue
+			}
+			form := func(f *ssa.Function) (lin, bool) {
+				if len(f.Blocks) != 1 || len(f.Params) != 1 {
+					return lin{}, false
+				}
+				ret, ok := f.Blocks[0].Instrs[len(f.Blocks[0].Instrs)-1].(*ssa.Return)
+				if !ok || len(ret.Results) != 1 || !isIntegral(ret.Results[0].Type()) {
+					return lin{}, false
+				}
+				env := &linEnv{forms: map[*ssa.Parameter]lin{}, names: map[*ssa.Parameter]string{f.Params[0]: "recv"}, allocAsName: true}
+				l := linOf(ret.Results[0], env)
+				// a value receiver is spilled to a local named after it
+				out := newLin()
+				out.k = l.k
+				for a, cf := range l.coef {
+					a = strings.Replace(a, f.Params[0].Name()+".", "recv.", -1)
+					a = strings.Replace(a, "("+f.Params[0].Name()+")", "(recv)", -1)
+					a = strings.Replace(a, "(*"+f.Params[0].Name()+")", "(recv)", -1)
+					a = strings.Replace(a, "*recv", "recv", -1)
+					a = strings.Replace(a, "(recv.", "(recv.", -1)
+					out.coef[a] += cf
+				}
+				return out, true
+			}
+			ls, ok1 := form(fs)
+			le, ok2 := form(fe)
+			ll, ok3 := form(fl)
+			if !ok1 || !ok2 || !ok3 {
+				continue
+			}
+			n++
+			key := shortPkg(sp.Pkg.Path()) + "." + name + "/End==Start+Len"
+			c.Funcs[funcName(fe)] = true
+			d := le.add(ls, -1).add(ll, -1)
+			if d.isConst() && d.k == 0 {
+				c.ok(rule, key, fe.Pos(), "End() = "+le.String()+", Start() = "+ls.String()+", Len() = "+ll.String())
+			} else {
+				c.bad(rule, key, fe.Pos(), "End() - Start() - Len() = "+d.String()+" (End() = "+le.String()+", Start() = "+ls.String()+", Len() = "+ll.String()+"): the type does not describe the half-open interval [Start, End) of Len positions, so positions, lengths and clipping computed from different accessors disagree")
+			}
+		}
+	}
+	if n == 0 {
+		c.und(rule, "intervalcoherent", token.NoPos, "no type with straight-line Start/End/Len methods found")
 	}
 }
